@@ -296,7 +296,7 @@ theorem pendCount_settleBet {s s' : State} (hI : BetIdx s) (x : Nat × Nat × Na
 
 /-- a page of pending entries (distinct, all listed) is settled entry by entry: the pending count of every market
     drops by the number of its entries in the page; books and queues are as `settleBet_frame` says -/
-theorem settlePage_count : ∀ (page : List (Nat × Nat × Nat × Nat)) (s : State) (r : State × Nat),
+theorem settlePage_pendCount : ∀ (page : List (Nat × Nat × Nat × Nat)) (s : State) (r : State × Nat),
     BetIdx s → SettleInv s → settlePage s page = some r → (∀ x ∈ page, x ∈ s.pending) →
     page.Pairwise (fun a b => (ikey a == ikey b) = false) →
     (∀ v, pendCount r.1 v + (page.filter (fun y => y.1 == v)).length = pendCount s v) ∧
@@ -400,7 +400,7 @@ theorem betEndBlockStep_spec {s : State} {mk n : Nat} {R : List Nat} {r : State 
     have := hI.sPend
     unfold Sorted at this
     exact (List.Pairwise.sublist hsub this).imp (fun {a b} hab => ltL_ne _ _ hab)
-  obtain ⟨g1, g2, g3, g4, g5⟩ := settlePage_count _ s r0 hI hS h0 (fun x hx => hsub.subset hx) hpw
+  obtain ⟨g1, g2, g3, g4, g5⟩ := settlePage_pendCount _ s r0 hI hS h0 (fun x hx => hsub.subset hx) hpw
   have hc := c05_page_settled_count _ _ _ h0
   have hlen : r0.2 = min n (pendCount s mk) := by rw [hc, List.length_take]; rfl
   have hall : ∀ x ∈ (s.pending.filter (fun x => x.1 == mk)).take n, (x.1 == mk) = true :=
